@@ -98,7 +98,7 @@ C06_CLASSES = r'^(grow|diverge)'
 def gen_native():
     from kit import gen_native as GN
     seed = os.environ.get('VERIF_SEED', '0') or '0'
-    return Native('gen', None, builder=lambda: GN.build()[0], quick_args=['sweep', 'all', 'quick', seed], thorough_args=['sweep', 'all', 'thorough', seed], timeout=3000,
+    return Native('gen', None, builder=lambda: GN.build()[0], builder_thorough=lambda: GN.build(files=GN.thorough_files())[0], quick_args=['sweep', 'all', 'quick', seed], thorough_args=['sweep', 'all', 'thorough', seed], timeout=3000,
                   rule='for every probe theory: the emitted module is compiled with a generated harness (executable form of the generated invariant, reading the private index '
                        'fields from inside the module) and driven through its public API with all sequences of L operations (new_/define_/insert_/equate_/close over 3 elements '
                        'per type) followed by close, plus seeded random longer sequences; checked after every call: invariant, are_equal_ == the equivalence generated by the equate_ '
@@ -109,7 +109,8 @@ def gen_native():
                        '"iter_<rel> yields >= n tuples": the return value equals the condition in the state returned, false only in a closed state, and after every close() / close_until() == false '
                        'the model is isomorphic (fixing the caller\'s elements) to a fresh model on which the same assertions were replayed and closed once; C03: the same comparison against a fresh '
                        'model that received the assertions in reverse order, each twice; C06: close()/close_until() allocate no element when the program has no non-surjective conclusion; '
-                       'every sequence is distinct and non-trivial (ends in close)')
+                       'every sequence is distinct and non-trivial (ends in close); the thorough tier additionally drives the modules emitted for the theories of eqlog-test-eval/src '
+                       'that have no model declarations and no non-surjective rules (12 programs)')
 
 
 def C04():
